@@ -298,7 +298,7 @@ def compare_eval(rec: Dict[str, Any], tbl: "DocTable", *, styles: Sequence[int],
                                     v["edited-by-caller"] = True
                             if [canon_plain(v) for v in path.findall(tdoc, **kw)] != want:
                                 disc = "second-evaluation-of-the-same-json-text-differs"
-                        elif d % 4 == 3 and isinstance(doc, (list, dict)):
+                        elif (d % 4 == 3 or d == len(tbl) - 1) and isinstance(doc, (list, dict)):
                             # the same document with every pair of equal containers being one object (a tree to JSON, a DAG to
                             # the host): read-only evaluation cannot tell - same locations, same order, once per location
                             sdoc = share_containers(untag(tbl.docs[d]["doc"]))
